@@ -233,3 +233,8 @@ mut("C29", "R29.4", "first-content-change", LS + "server.rs",
     "        if let Some(change) = content_changes.last() {", "        if let Some(change) = content_changes.first() {")
 mut("C30", "R30.5", "unchecked-range-index", LS + "server.rs",
     "        Some(input.get(start..end)?.trim().to_owned())", "        Some(input[start..end].trim().to_owned())")
+mut("C32", "R32.2", "get-off-by-one-position", PA + "analysis/k_tuple.rs",
+    "            let mut terminal_index = (self.t >> (i * self.bits() as usize)) & self.mask();",
+    "            let mut terminal_index = (self.t >> ((i + 1) * self.bits() as usize)) & self.mask();")
+mut("C32", "R32.2", "set-clears-at-other-position", PA + "analysis/k_tuple.rs",
+    "        let mask = !(terminal_mask << (i * bits));", "        let mask = !(terminal_mask << bits);")
